@@ -9,7 +9,7 @@ MANIFEST = (
     "every iteration of whole runs; after run() the output folder is listed and every mesh file is parsed by an own strict legacy-VTK "
     "parser (and mesh_reader), the statistics table (csv file and in-memory string) is compared row by row with the getters recorded "
     "when each record was written",
-    "Held on every run of the sweep: 120 (quick) / 10 000 (thorough) whole simulations of 1-6 cells over (T, dt, S) with S = dt, "
+    "Held on every run of the sweep: 160 (quick) / 36 000 (thorough) whole simulations of 1-6 cells over (T, dt, S) with S = dt, "
     "S = dt(1+1e-16..1e-9), S = k dt, incommensurable and binary-exact ratios, decimal / random / binary time steps, 1-260 iterations, "
     "histories with growth, division at iteration 0 and later, removal at iteration 0 and later, extinction, all five cell classes, "
     "both statistics writers. Exploration is the right level: file numbering and the row discipline are properties of whole runs "
